@@ -19,7 +19,7 @@ from typing import List
 
 from vlib.shim import *  # noqa: F401,F403
 from vlib.h import harness, tier, shard
-from vlib.stubs.fakesocket import FakeRawSocket, FakeSelect, make_provider, drain
+from vlib.stubs.fakesocket import FakeSSLModule, FakeTLSSocket, FakeRawSocket, FakeSelect, make_provider, drain
 
 from spec import ps38_layout as L
 
@@ -42,14 +42,20 @@ def concrete(x):
     return x
 
 
-def pump(data, cuts, closed, size, max_steps):
+def pump(data, cuts, closed, size, max_steps, tls=False):
     """Drive the real receive step until nothing is readable (or the connection was reported closed).
-    Returns (events, pdus) or None if an exception escaped."""
-    raw = FakeRawSocket(data, cuts, closed=closed, timeout=30, size=size)
+    Returns (events, pdus) or None if an exception escaped.  tls: the socket is an SSLSocket whose records are `cuts`."""
+    if tls:
+        raw = FakeTLSSocket(data, cuts, closed=closed, timeout=30, size=size)
+    else:
+        raw = FakeRawSocket(data, cuts, closed=closed, timeout=30, size=size)
     with untraced():
         d = make_provider(raw)
     saved = transport_mod.select
+    saved_ssl = transport_mod.ssl, transport_mod._HAS_SSL
     transport_mod.select = FakeSelect
+    if tls:
+        transport_mod.ssl, transport_mod._HAS_SSL = FakeSSLModule, True
     events, pdus = [], []
     try:
         for _ in range(max_steps):
@@ -64,6 +70,7 @@ def pump(data, cuts, closed, size, max_steps):
         return None
     finally:
         transport_mod.select = saved
+        transport_mod.ssl, transport_mod._HAS_SSL = saved_ssl
     return events, pdus
 
 
@@ -107,10 +114,17 @@ def _seq_shards():
     else:
         for q in core:
             out += [{"seq": q, "mode": "cuts", "nc": 2}, {"seq": q, "mode": "close", "nc": 1}]
+    # the same streams over TLS: the cuts are TLS record sizes (several PDUs may share one record, a PDU may span records)
+    for q in (CORE_PAIRS if tier(True, False) else core):
+        out += [{"seq": q, "mode": "cuts", "nc": 2, "tls": 1}]
+    if tier(False, True):
+        for q in CORE_PAIRS:
+            out += [{"seq": q, "mode": "close", "nc": 1, "tls": 1}]
     return out
 
 
 N_CUTS = shard("nc", 2)
+_TLS = bool(shard("tls", 0))
 _MODE = shard("mode", "cuts")
 
 
@@ -152,7 +166,7 @@ def cuts_enumerated(cuts: List[int], close_at: int, a: int, b: int, payload: byt
     closed = close_at >= 0
     if closed:
         stream = stream[:close_at]
-    res = pump(stream, cuts, closed, (close_at if closed else TOTAL), len(_SEQ) + 2)
+    res = pump(stream, cuts, closed, (close_at if closed else TOTAL), len(_SEQ) + 2, tls=_TLS)
     if res is None:
         return False
     events, pdus = res
